@@ -959,7 +959,12 @@ class DataFieldBase(FieldBase, metaclass=ABCMeta):
         op = self.grid.make_operator_no_bc(
             operator_info, backend=backend_impl, **kwargs
         )
-        backend_impl._apply_operator(op, self._data_full, out=out.data)
+        data_full = self._data_full
+        if np.may_share_memory(out._data_full, data_full):
+            # `out` is this field (or a view of it): the operator reads neighboring
+            # cells and must not see values that it has already overwritten
+            data_full = data_full.copy()
+        backend_impl._apply_operator(op, data_full, out=out.data)
 
         return out
 
